@@ -247,7 +247,7 @@ Proof.
   assert (S0 : sem t (Voc t) 0) by (apply (oneport_sem t A); ring).
   assert (S1 : sem t (Voc t - Zt t * 1) 1) by (apply (oneport_sem t A); ring).
   apply (oneport_sem_norton t B) in S0. apply (oneport_sem_norton t B) in S1.
-  transitivity (1 - (1 - (Isc t - Yt t * (Voc t - Zt t * 1))) - (0 - (Isc t - Yt t * Voc t))); [ring|].
+  transitivity ((Isc t - Yt t * (Voc t - Zt t * 1)) - (Isc t - Yt t * Voc t)); [ring|].
   rewrite <- S0, <- S1. ring.
 Qed.
 Corollary Isc_is_Voc_times_Y t : admissible t -> admissibleN t -> Isc t = Voc t * Yt t.
